@@ -124,6 +124,7 @@ def lists_properties(member, vals, pr):
     k = kq("k!lp")
     v = vals[P_]
     return z3.And(member[P_] == (pr.n != 0),
+                  z3.Implies(pr.n != 0, z3.And(v != val_none, J.props_count(v) == pr.n)),
                   z3.Implies(pr.n != 0, z3.ForAll([k], z3.And(J.props_names(v)[k] == pr.member[k], z3.Implies(pr.member[k], J.props_nodes(v)[k] == pr.vals[k])))))
 
 
@@ -334,7 +335,7 @@ class Schema(_JG):
     targets = (JG + ".schema",)
     returns = J.SCHEMA_T
     modifies = ("self", BUILDER)  # (the builder: `required` attaches an empty set to a strategy that has none - 63aba35)
-    inline_ok = True  # returns the cached dictionary itself
+    # (callers use this summary: since 0717736 nobody edits the returned dictionary in place)
 
     def requires(self, c):
         return _JG.requires(self, c) + wfg_required(c.old.self)
@@ -386,9 +387,9 @@ class _MBC(Contract):
 def _source(src):
     """(has properties, property names, property schemas, has required, required names) of the argument of add_schema: a dictionary or another builder."""
     if isinstance(src.obj, PyObj):
-        return src.props.n != 0, src.props.member, src.props.vals, z3.And(src.has_req, src.req.n != 0), src.req.member
+        return src.props.n != 0, src.props.member, src.props.vals, z3.And(src.has_req, src.req.n != 0), src.req.member, src.props.n
     pv, rv = src.get(P_), src.get(R_)
-    return src.has(P_), J.props_names(pv), J.props_nodes(pv), src.has(R_), J.names_of(rv)
+    return src.has(P_), J.props_names(pv), J.props_nodes(pv), src.has(R_), J.names_of(rv), J.props_count(pv)
 
 
 def _merged_props(p0, p1, taken, node, update):
@@ -407,18 +408,27 @@ class AddSchema(_MBC):
     params = {"schema": TEither(J.SCHEMA_T, TObj(MB)), "update": TBool}
     description = ("assumed (genson Object strategy + gemseo _MergeStrategy): the properties of the schema (a dict, or the to_schema() of a builder) are added - "
                    "replacing (update) or merged with (not update) an existing one -, the others are kept; the builder's own required set becomes the schema's one if it "
-                   "tracked none, else is INTERSECTED with it (unchanged when the schema lists none); other root keywords may change, never 'properties'/'required'/'id'")
+                   "tracked none, else is INTERSECTED with it (unchanged when the schema lists none); other root keywords may change, never 'properties'/'required'/'id'; "
+                   "a builder added to a NEW builder (no root strategy) gives it its own root keywords")
 
     def ensures(self, c):
         b0, b1 = c.old.self, c.new.self
-        has_p, pn, pv, has_r, rn = _source(c.old.schema)
+        has_p, pn, pv, has_r, rn, count = _source(c.old.schema)
         k = kq("k!as")
         return _merged_props(b0.props, b1.props, lambda x: z3.And(has_p, pn[x]), lambda x: pv[x], c.old.update) + [
+            ("assumed:size-into-an-empty-builder", z3.Implies(b0.props.n == 0, b1.props.n == z3.If(has_p, count, 0))),
             ("assumed:tracks-required", b1.has_req == z3.Or(b0.has_req, has_r)),
             ("assumed:root-strategy", z3.And(z3.Implies(b0.has_strategy, b1.has_strategy), z3.Implies(b1.has_req, b1.has_strategy), z3.Implies(z3.Not(b1.has_strategy), b1.props.n == 0))),
             ("assumed:own-required", z3.ForAll([k], b1.req.member[k] == z3.If(has_r, z3.If(b0.has_req, z3.And(b0.req.member[k], rn[k]), rn[k]), b0.req.member[k]))),
             ("assumed:own-required-size", z3.Implies(z3.Or(z3.Not(has_r), z3.And(b0.has_req, b0.req.n == 0)), b1.req.n == z3.If(has_r, 0, b0.req.n))),
-            ("assumed:keywords", z3.And(*[f for _, f in _meta_wf(b1.meta)]))]
+            ("assumed:keywords", z3.And(*[f for _, f in _meta_wf(b1.meta)]))] + self._into_empty(c)
+
+    def _into_empty(self, c):
+        # a builder copied into a NEW builder (no root strategy yet) reproduces its root keywords (natively checked: JSONGrammar.copy())
+        src = c.old.schema
+        if not isinstance(src.obj, PyObj):
+            return []
+        return [("assumed:keywords-of-the-source-into-a-new-builder", z3.Implies(z3.Not(c.old.self.has_strategy), same_dict(c.new.self.meta, src.meta)))]
 
 
 @register
@@ -749,3 +759,297 @@ class BuilderProperties(_Live):
         if s0 is None:
             return [("no-strategy:new-empty-dict", r.n == 0)]
         return [("live:the-result-is-the-dict-of-the-strategy", z3.BoolVal(r.ref == s1.fields["_properties"] and s1.fields["_properties"] == s0.fields["_properties"]))]
+
+
+# ============================================================================ conversion to a SimpleGrammar ("JSON-schema and simple grammars agree on the definitions both can express")
+from contracts import c15_grammars as G  # noqa: E402
+
+SG, BG = G.SG, G.BG
+NTT = G.NTT
+
+# the Python type a property schema converts to (JSONGrammar._get_names_to_types): JSON_TO_PYTHON_TYPES[node["type"]] when the property has ONE type keyword
+# that the table knows, else None (= any type)
+node_has_type, node_type, type_is_hashable, j2p_known, j2p = J.node_has_type, J.node_type, J.type_is_hashable, J.j2p_known, J.j2p
+
+
+def py_type_of(node):
+    t = node_type(node)
+    return z3.If(z3.And(node_has_type(node), type_is_hashable(t), j2p_known(t)), j2p(t), val_none)
+
+
+def some_property(p, pred):
+    k = kq("k!sp")
+    return z3.Exists([k], z3.And(p.has(k), pred(p.get(k))))
+
+
+def table_facts():
+    """The values of JSON_TO_PYTHON_TYPES are class objects (hence valid element types of a simple grammar)."""
+    v = z3.Const("v!j2p", J.ValS)
+    return [("table:values-are-types", z3.ForAll([v], z3.Implies(j2p_known(v), z3.And(G.is_type(j2p(v)), j2p(v) != val_none)), patterns=[j2p(v)]))]
+
+
+def wfg_json(g):
+    """BaseGrammar's representation invariant on a JSON grammar (elements = the builder's properties)."""
+    k = kq("k!wfj")
+    return wfg_required(g) + [("wfg:defaults-are-elements", z3.ForAll([k], z3.Implies(dfl(g).member[k], props(g).member[k]))),
+                              ("wfg:name-is-not-empty", G._nonempty(g.name))]
+
+
+@register
+class GetNamesToTypes(_JG):
+    """names -> Python types of the CURRENT properties: the type the table gives for the property's single type keyword, None when it has none / several /
+    an unknown one; the definition is not changed."""
+
+    targets = (JG + "._get_names_to_types",)
+    returns = NTT
+    modifies = ("self", BUILDER)
+    loops = {0: LoopSpec(anchor="properties.items()", inv=lambda c, k: _gntt_inv(c, k), modifies=("names_to_types",), local_types={"names_to_types": NTT})}
+
+    def requires(self, c):
+        return _JG.requires(self, c) + wfg_required(c.old.self)
+
+    # The two exceptions are characterised EXACTLY (both directions); that they can happen at all is the finding recorded by the lemma ConversionIsTotal below.
+    raises = {"KeyError": lambda c: some_property(props(c.old.self), lambda n: z3.Not(node_has_type(n))),
+              "TypeError": lambda c: some_property(props(c.old.self), lambda n: z3.And(node_has_type(n), z3.Not(type_is_hashable(node_type(n)))))}
+
+    def ensures(self, c):
+        g0, g1, r = c.old.self, c.new.self, c.result
+        k = kq("k!gntt")
+        return [("names:the-current-elements", z3.ForAll([k], r.has(k) == props(g0).has(k))),
+                ("types:from-the-table", z3.ForAll([k], z3.Implies(props(g0).has(k), r.get(k) == py_type_of(props(g0).get(k))))),
+                ("size", r.n == props(g0).n),
+                ("new-dictionary", z3.BoolVal(r.ref != props(g1).ref))] + cvb(g1) + meta_wf(g1) + definition_kept(g0, g1)
+
+
+def _gntt_inv(c, k):
+    g0 = c.old.self
+    r = c.locals["names_to_types"]
+    x = kq("k!gi")
+    pos = c.seq.pos
+    return [("names", z3.ForAll([x], r.has(x) == z3.And(props(g0).has(x), pos[x] < k))),
+            ("types", z3.ForAll([x], z3.Implies(r.has(x), r.get(x) == py_type_of(props(g0).get(x))))),
+            ("converted-so-far:one-type-keyword", z3.ForAll([x], z3.Implies(r.has(x), z3.And(node_has_type(props(g0).get(x)), type_is_hashable(node_type(props(g0).get(x))))))),
+            ("size", r.n == k)]
+
+
+@register
+class SimpleToSimple(Contract):
+    targets = (SG + ".to_simple_grammar",)
+    prop = ("C15",)
+    returns = TObj(SG)
+
+    def ensures(self, c):
+        return [("itself", z3.BoolVal(c.result.ref == c.arg("self")))]
+
+
+@register
+class ToSimpleJson(Contract):
+    """The result is a NEW, well-formed SimpleGrammar (its Defaults and RequiredNames are bound to IT and refer to its own elements) with the same element names,
+    the types of the conversion table, the same required names and the same default VALUES (own dictionary); the JSON grammar is not changed."""
+
+    targets = (BG + ".to_simple_grammar",)
+    variant = "json"
+    prop = ("C15",)
+    self_class = JG
+    returns = TObj(SG)
+    modifies = ("self", BUILDER)
+    raises = GetNamesToTypes.raises  # (propagated from _get_names_to_types, see ConversionIsTotal)
+
+    def requires(self, c):
+        g = c.old.self
+        return cvb(g) + meta_wf(g) + [size_fact(cache(g))] + wfg_json(g) + G.type_facts() + table_facts()
+
+    def ensures(self, c):
+        g0, g1, r = c.old.self, c.new.self, c.result
+        k = kq("k!tsj")
+        t = G.ntt(r)
+        return G.wfg(r) + [
+            ("same-names", z3.ForAll([k], t.has(k) == props(g0).has(k))),
+            ("types:from-the-table", z3.ForAll([k], z3.Implies(t.has(k), t.get(k) == G.stored_type(py_type_of(props(g0).get(k)))))),
+            # (membership only: the set model does not relate the size of `set() | s` to the size of s)
+            ("same-required-names", z3.ForAll([k], G.req(r).member[k] == req(g0).member[k])),
+            ("same-defaults", same_dict(G.dfl(r), dfl(g0))),
+            ("same-name", r.name == g0.name),
+            ("independent:defaults", z3.BoolVal(r._defaults.ref != g0._defaults.ref and r._defaults._Defaults__data.ref != g0._defaults._Defaults__data.ref)),
+            ("independent:required-names", z3.BoolVal(r._required_names.ref != g0._required_names.ref and
+                                                      r._required_names._RequiredNames__names.ref != g0._required_names._RequiredNames__names.ref)),
+            ("no-namespace", z3.And(r.to_namespaced.n == 0, r.from_namespaced.n == 0)),
+        ] + [(f"source:{l}", f) for l, f in cvb(g1) + meta_wf(g1) + definition_kept(g0, g1)]
+
+
+class _Logging(Contract):
+    prop = ("C15",)
+    trusted = True
+    description = "assumed: only logs a warning about a feature the conversion to SimpleGrammar ignores (logging is dropped by the extraction); reads the property schema"
+
+
+@register
+class WarnForArray(_Logging):
+    targets = (JG + ".__warn_for_array",)
+    params = {"property_name": TStr, "property_json_type": TVal, "property_description": TVal}
+
+
+@register
+class WarnForItems(_Logging):
+    targets = (JG + ".__warn_for_items",)
+    params = {"property_name": TStr, "property_description": TVal}
+
+
+@register
+class DefaultsCopyAlias(G.DFCopy):
+    targets = (G.DF + ".copy",)
+
+
+@register
+class ConversionIsTotal(Contract):
+    """to_simple_grammar / _get_names_to_types convert EVERY JSON grammar ("the type is set to None" when no unique Python type exists): the exact exception
+    conditions of GetNamesToTypes never hold, i.e. every property schema has one `type` keyword whose value is a string.  FAILS on the pinned tree (known finding):
+    a property without type ({} from update_from_types({name: None}), "anyOf" merges) raises KeyError, a merged `type` list raises TypeError."""
+
+    lemma = True
+    targets = ()
+    prop = ("C15",)
+
+    def lemmas(self):
+        n = z3.Const("node!cit", J.ValS)
+        return [("conversion:no-KeyError-for-a-property-without-type", z3.ForAll([n], node_has_type(n))),
+                ("conversion:no-TypeError-for-a-property-with-several-types", z3.ForAll([n], z3.Implies(node_has_type(n), type_is_hashable(node_type(n)))))]
+
+
+def _tables():
+    """The two conversion tables, read from the REAL class body (dict displays of string constants / type names)."""
+    import ast
+
+    from pyvc import source as S
+
+    ci = S.load_class(JG)
+    out = []
+    for name in ("_JSONGrammar__JSON_TO_PYTHON_TYPES", "_JSONGrammar__PYTHON_TO_JSON_TYPES"):
+        e = ci.class_attrs.get(name) if ci else None
+        if not isinstance(e, ast.Dict):
+            return None
+        conv = lambda x: x.value if isinstance(x, ast.Constant) and isinstance(x.value, str) else (("type", x.id) if isinstance(x, ast.Name) else None)  # noqa: E731
+        d = {conv(k): conv(v) for k, v in zip(e.keys, e.values)}
+        if None in d or None in d.values():
+            return None
+        out.append(d)
+    return out
+
+
+@register
+class TypeTables(Contract):
+    """JSON and simple grammars agree on the types both can express: JSON -> Python -> JSON is the identity on every JSON type of the table; Python -> JSON -> Python
+    is the identity on str/int/bool/ndarray/complex and generalises the others the documented way (list, tuple -> ndarray; float -> complex); arrays are ndarray."""
+
+    lemma = True
+    targets = ()
+    prop = ("C15",)
+
+    def lemmas(self):
+        t = _tables()
+        if t is None:
+            return [("tables-are-dict-displays-of-names-and-strings", z3.BoolVal(False))]
+        j2p_, p2j = t
+        ty = lambda n: ("type", n)  # noqa: E731
+        general = {ty("list"): ty("ndarray"), ty("tuple"): ty("ndarray"), ty("float"): ty("complex")}
+        out = [(f"json->python->json:{j}", z3.BoolVal(p2j.get(j2p_[j]) == j)) for j in sorted(j2p_)]
+        for p in sorted(p2j, key=str):
+            back = j2p_.get(p2j[p])
+            out.append((f"python->json->python:{p[1]}", z3.BoolVal(back == general.get(p, p))))
+        out.append(("arrays-are-ndarray", z3.BoolVal(j2p_.get("array") == ty("ndarray") and all(p2j.get(ty(x)) == "array" for x in ("ndarray", "list", "tuple")))))
+        out.append(("five-json-types", z3.BoolVal(sorted(j2p_) == ["array", "boolean", "integer", "number", "string"])))
+        return out
+
+
+# ---------------------------------------------------------------------------- files
+def _file_schema(path):
+    """(membership, values) of the dictionary json.loads(<text of the file>)."""
+    t = J.json_loads(J.json_file_text(path))
+    return J.SCHEMA_T.acc(0)(t), J.SCHEMA_T.acc(1)(t)
+
+
+@register
+@with_cvb
+class UpdateFromFile(_JG):
+    """update_from_schema of the JSON object stored in the file (FileNotFoundError exactly when it does not exist); no cache survives."""
+
+    targets = (JG + ".update_from_file",)
+    params = {"path": TStr, "merge": TBool}
+    modifies = ("self", BUILDER, "self._required_names")
+    raises = {"FileNotFoundError": lambda c: z3.Not(J.json_file_exists(c.old.path)), "KeyError": None}
+
+    def ensures(self, c):
+        g0, g1 = c.old.self, c.new.self
+        m, v = _file_schema(c.old.path)
+        k = kq("k!uff")
+        r0, r1 = req(g0), req(g1)
+        in_props = lambda x: z3.And(m[P_], J.props_names(v[P_])[x])  # noqa: E731
+        in_req = lambda x: z3.And(m[R_], J.names_of(v[R_])[x])  # noqa: E731
+        return added(props(g1), props(g0), in_props) + [
+            ("kept:defaults", same_dict(dfl(g1), dfl(g0))), ("kept:name", g1.name == g0.name),
+            ("required:exactly-the-old-ones-and-those-of-the-file", z3.ForAll([k], r1.member[k] == z3.Or(r0.member[k], in_req(k))))]
+
+    def raise_ensures(self, c, exc):
+        if exc != "FileNotFoundError":
+            return []
+        g0, g1 = c.old.self, c.new.self
+        return [("unchanged:properties", same_dict(props(g1), props(g0)))] + caches_kept(g0, g1)
+
+
+def written(c, new=False):
+    return (c.new_ghost if new else c.old_ghost)("json_written", z3.ArraySort(TStr.sort(), TStr.sort()))
+
+
+@register
+class ToFile(_JG):
+    """Read-only for the grammar (definition and caches unchanged, the builder's own required set empty again); something is written at the given path
+    (`<name>.json` when the path is empty) and nowhere else."""
+
+    targets = (JG + ".to_file",)
+    params = {"path": TStr}
+    modifies = ("self", BUILDER, "ghost:json_written")
+
+    def requires(self, c):
+        return _JG.requires(self, c) + wfg_required(c.old.self)
+
+    def ensures(self, c):
+        from pyvc.models import str_nonempty_f
+
+        g0, g1 = c.old.self, c.new.self
+        p = c.old.path
+        target = z3.If(str_nonempty_f(p), p, J.path_with_suffix(g0.name, lit(".json")))
+        q = kq("q!tf")
+        return cvb(g1) + meta_wf(g1) + definition_kept(g0, g1) + caches_kept(g0, g1) + [
+            ("written:only-at-the-target-path", z3.ForAll([q], z3.Implies(q != target, written(c, new=True)[q] == written(c)[q])))]
+
+
+# ---------------------------------------------------------------------------- copy into a new grammar
+@register
+class CopyInto(_JG):
+    """The (new, empty) grammar gets the same properties and keywords, its own copy of the cached schema and the validator - caches that are valid for IT;
+    the source is not changed."""
+
+    targets = (JG + "._copy",)
+    params = {"grammar": TObj(JG)}
+    modifies = ("grammar", "grammar._JSONGrammar__schema_builder")
+
+    def requires(self, c):
+        o = c.old.grammar
+        b = bld(o)
+        # BaseGrammar.__copy__: `grammar = self.__class__(self.name)` (a new grammar: __init__ -> clear() -> _clear(), see Clear)
+        return _JG.requires(self, c) + [("target:new-empty-grammar", z3.And(props(o).n == 0, z3.Not(b.has_strategy), z3.Not(b.has_req), b.req.n == 0)),
+                                        ("target:not-the-source", z3.BoolVal(c.arg("grammar") != c.arg("self") and b.ref != bld(c.old.self).ref))] + \
+            [(f"target:{l}", f) for l, f in meta_wf(o)]
+
+    def ensures(self, c):
+        s, o0, o1 = c.old.self, c.old.grammar, c.new.grammar
+        return [(f"copy:{l}", f) for l, f in cvb(o1) + meta_wf(o1)] + [
+            ("copy:same-properties", same_dict(props(o1), props(s))),
+            ("copy:same-keywords", same_dict(meta(o1), meta(s))),
+            ("copy:same-cached-schema", same_dict(cache(o1), cache(s))),
+            ("copy:own-cached-schema", z3.BoolVal(cache(o1).ref != cache(s).ref)),
+            ("copy:same-validator", validator(o1).term == validator(s).term),
+            ("copy:own-builder", z3.BoolVal(bld(o1).ref != bld(s).ref and props(o1).ref != props(s).ref)),
+            ("copy:kept:name", o1.name == o0.name),
+            ("copy:kept:parts", z3.BoolVal(o1._defaults.ref == o0._defaults.ref and o1._required_names.ref == o0._required_names.ref)),
+        ]
